@@ -171,6 +171,16 @@ CLAIMED = {
    note='Trusted: Coq kernel; extraction + driver; the size estimates that drive bundling are re-stated in the harness from issue()\'s documentation; results are compared across settings '
         'on the implementation (their agreement with the array model is C03-C07); numeric @class/instance/attribute and JSON path text are checked on the implementation only.',
    technique='Coq proof (induction over the operation list / schedule fuel; separator-freeness lemmas for the text round trip) + model/implementation correspondence', design='6 C12'),
+ 'C13': dict(
+   text='Coq theorems (Properties/C13.v) over the reply-matching model (Model/Harvest.v) and the framing model: whatever replies arrive and however the stream ends, every result '
+        'yielded pairs an operation with a reply carrying that operation\'s own sender context and service (reply bit set), results are the first k operations in order with the '
+        'first k replies; a result stream that ends normally is complete (never silently fewer results); a stream ending inside a frame with replies owed raises; a stream cut '
+        'after n bytes completes exactly the frames whose final byte was delivered.  The pre-fix behaviour of synchronous is kept as a machine-checked witness.  Observation: a '
+        'simulator behind a fault-injecting relay on real sockets; cuts / silences over the reply stream (all frame boundaries, neighbours, every 9th / every offset) for '
+        'connector.pipeline (bundled and not), connector.operate(depth=0) and proxy.read (+ discard and reconnect); result counts compared with the models\' prediction.',
+   note='PARTIAL: socket errors, timeouts and reconnection are runtime behaviour observed through the relay (server->client cuts and silences only; no client->server cuts, no '
+        'kernel resets); the theorems carry the matching logic.  Trusted: Coq kernel; extraction + driver; 1 s client timeout on localhost.',
+   technique='Coq proof (induction over the issued operations) + fault-injection against the live client compared with the extracted models', design='6 C13'),
 }
 PENDING = {}
 ALL = ['C%02d' % i for i in range(1, 21)]
